@@ -56,6 +56,9 @@ def extra_configs(tier, add):
     from jumanji.environments import BinPack
     from jumanji.environments.packing.bin_pack import generator as G, reward as R
     add("csv-toy", _csv_env, 24, batch=2)
+    # a container TALLER than wide and deeper than tall, with normalised observations: every normalised coordinate must use its own axis
+    add("rand6-tall-norm", lambda: BinPack(generator=G.RandomGenerator(max_num_items=6, max_num_ems=10, split_num_same_items=2,
+                                                                        container_dims=(1200, 800, 2000)), obs_num_ems=8), 9, batch=3)
     if tier != "quick":
         add("tiny7x5x3-ems4-obs3", _tiny, 11)
         add("rand6-ems3", lambda: BinPack(generator=G.RandomGenerator(max_num_items=6, max_num_ems=3, split_num_same_items=2), obs_num_ems=3), 8)
